@@ -33,6 +33,7 @@ RULE += (
          'Batch-link forms (previous / next else parts, batch bodies) '
          'among the enumerated blocks. ')
 RULE += ("Round 8: templates that render themselves from inside every binding block and try form until the interpreter's recursion limit (8 alignments) is reached. ")
+RULE += ('Round 9: one compiled block tag active twice at a time over different kinds of data. ')
 ASSUMPTIONS = [
     'faults are exceptions / dtml-return raised by namespace values (the '
     'quantifier of the property); RecursionError from exhausting the '
